@@ -356,7 +356,12 @@ def build(history):
 
 def step(acc, history, op):
     """Replay history on fresh objects, apply op, check the invariant. Returns the new World or None."""
-    w = build(history)
+    try:
+        w = build(history)
+    except Exception as e:
+        acc.violation('C11:op-raised:history:%s' % type(e).__name__, 'replaying the history %r raised %r' % (history, e),
+                      {'history': [list(o) for o in history], 'op': list(op)})
+        return None
     before = (w.digest(), w.model_key())
     acc.transitions += 1
     case = {'history': [list(o) for o in history], 'op': list(op)}
